@@ -3,7 +3,7 @@
 cd /verif
 for s in "$@"; do
   pid=${s%%-*}
-  git -C /repo apply seeded/$s/patch.diff || { echo "$s APPLY-FAILED"; continue; }
+  git -C /repo apply /verif/seeded/$s/patch.diff || { echo "$s APPLY-FAILED"; continue; }
   ./check $pid --tier quick > /tmp/seeded_$s.out 2>&1; rc=$?
   git -C /repo checkout -- .
   echo "$s rc=$rc $(grep -c '^VIOLATION' /tmp/seeded_$s.out) $(grep '^VIOLATION' /tmp/seeded_$s.out | head -1)"
